@@ -194,9 +194,14 @@ def showSelection (c : Cfg) (pop : List Agent) (draws : Nat → List Nat) : Stri
   let rank := stableRank ks
   let (e, kids) := plan c rank pop draws
   let el := eliteOf rank pop
-  let head := "E " ++ showKey (ks.getD e none) ++ " " ++ toString el.index
+  -- which of several tied agents is the elite is left open, hence so is the index it keeps:
+  -- the elite slots show `keep` when the index is the parent's own, everything else the number
+  let showIdx := fun (parent : Nat) (idx : Int) (slot : Bool) =>
+    if slot && idx == (pop.getD parent default).index then "keep" else toString idx
+  let head := "E " ++ showKey (ks.getD e none) ++ " " ++ showIdx e el.index true
   let rest := kids.map fun ch =>
-    showKey (ks.getD ch.parent none) ++ " " ++ toString ch.index ++ " " ++ showBool ch.isElite
+    showKey (ks.getD ch.parent none) ++ " " ++ showIdx ch.parent ch.index ch.isElite ++ " " ++
+      showBool ch.isElite
   " ; ".intercalate (head :: rest)
 
 def step (s : IOState) : List String → IOState × String
